@@ -251,6 +251,17 @@ func (c *Ctx) constInnerArray(vals []constant.Value, elem types.Type, n int64) (
 		c.n++
 		nm := fmt.Sprintf("ctabf_%d", c.n)
 		c.decls = append(c.decls, fmt.Sprintf("(define-fun %s ((i %s)) %s %s)", nm, BV64, srt, term))
+		// the same table as a real array term (store chain), used when the whole array value is copied somewhere
+		// (queryText substitutes it for any "@fn:" leaf that escapes an index operation)
+		if len(ts) <= 1024 {
+			at := fmt.Sprintf("((as const (Array %s %s)) %s)", BV64, srt, z.T)
+			for i, t := range ts {
+				if t != z.T {
+					at = fmt.Sprintf("(store %s %s %s)", at, i64(int64(i)), t)
+				}
+			}
+			c.decls = append(c.decls, fmt.Sprintf("(define-fun %s () (Array %s %s) %s)", strings.Replace(nm, "ctabf_", "ctaba_", 1), BV64, srt, at))
+		}
 		return Sc{"@fn:" + nm, "(Array " + BV64 + " " + srt + ")"}, true
 	}
 	if isString(elem) {
